@@ -6,16 +6,20 @@ import JL.Tie.to_number_value
 /-! tie: `num_minus`, as translated from the crate's current source, is the model's function - for every input -/
 namespace JL.Tie
 open JL
+set_option linter.unusedSimpArgs false  -- which of the listed facts are used depends on how the source is spelled
 
+/- by the model's own case analysis (one operand / at least two; does the helper succeed?), each case closed by one `simp`
+that unfolds the function and the library calls and rewrites the callees with their ties wherever they end up being applied
+(`helper(..)?` then `to_number_value(v)`, or `helper(..).and_then(to_number_value)`) -/
 theorem num_minus (items : List Json) (h : 1 ≤ items.length) : Rs.ok_or (Gen.num_minus items) = execEager "-".toList items := by
   match items, h with
   | [a], _ =>
     unfold execEager
-    simp only [Gen.num_minus, to_negative, to_number_value]
-    cases hm : JsOp.toNegative a <;> simp [rs, numResult, hm]
+    cases hm : JsOp.toNegative a <;>
+      simp [Gen.num_minus, to_negative, abstract_minus, to_number_value, rs, numResult, hm]
   | a :: b :: rest, _ =>
     unfold execEager
-    simp only [Gen.num_minus, abstract_minus, to_number_value]
-    cases hm : JsOp.abstractMinus a b <;> simp [rs, numResult, hm]
+    cases hm : JsOp.abstractMinus a b <;>
+      simp [Gen.num_minus, to_negative, abstract_minus, to_number_value, rs, numResult, hm]
 
 end JL.Tie
